@@ -7,6 +7,9 @@
 #include "relic_ed.h"
 
 #define ED_SYS (ED_ADD == EXTND ? "extnd" : (ED_ADD == PROJC ? "projc" : "basic"))
+#define ED_MULM (ED_MUL == BASIC ? "basic" : ED_MUL == SLIDE ? "slide" : ED_MUL == MONTY ? "monty" : ED_MUL == LWNAF ? "lwnaf" : ED_MUL == LWREG ? "lwreg" : "?")
+#define ED_FIXM (ED_FIX == BASIC ? "basic" : ED_FIX == COMBS ? "combs" : ED_FIX == COMBD ? "combd" : ED_FIX == LWNAF ? "lwnaf" : "?")
+#define ED_SIMM (ED_SIM == BASIC ? "basic" : ED_SIM == TRICK ? "trick" : ED_SIM == INTER ? "inter" : ED_SIM == JOINT ? "joint" : "?")
 
 static void fp_tok(fp_t a, const char *tok) {
 	raw_t r; bn_t t;
@@ -83,7 +86,7 @@ static void op_ed_param(int argc, char **argv) {
 	fprintf(OUT, " h="); raw_print(h->dp, h->used, 0);
 	fp_t tl, tr; fp_null(tl); fp_null(tr); fp_new(tl); fp_new(tr);
 	fp_mul(tl, g->t, g->z); fp_mul(tr, g->x, g->y);
-	fprintf(OUT, " sys=%s gcoord=%d gz1=%d gt=%d fpdigs=%d fpbits=%d nb=%d width=%d depth=%d level=%d preco=%d fix=%d\n", ED_SYS, g->coord,
+	fprintf(OUT, " sys=%s gcoord=%d gz1=%d gt=%d fpdigs=%d fpbits=%d nb=%d width=%d depth=%d level=%d preco=%d mulm=%s fixm=%s simm=%s\n", ED_SYS, g->coord,
 		fp_cmp_dig(g->z, 1) == RLC_EQ, fp_cmp(tl, tr) == RLC_EQ,
 		(int)RLC_FP_DIGS, (int)RLC_FP_BITS, (int)RLC_FP_BYTES, (int)RLC_WIDTH, (int)RLC_DEPTH, ed_param_level(),
 #ifdef ED_PRECO
@@ -91,7 +94,7 @@ static void op_ed_param(int argc, char **argv) {
 #else
 		0,
 #endif
-		(int)ED_FIX);
+		ED_MULM, ED_FIXM, ED_SIMM);
 }
 
 /* ed2 <op> <alias> <P> <Q> */
